@@ -434,6 +434,7 @@ func C07(tier string) int {
 		}
 		c07Entry(ents[i], seeds, c, l, ents[i].Family == "struct")
 	})
+	c07Population(c)
 	if len(ents) > 0 {
 		ps := c07Probes(ents[0], ents[0].Seeds[0])
 		if len(ps) > 3 {
@@ -446,4 +447,63 @@ func C07(tier string) int {
 		Assumptions:  []string{"AnyAttribute bodies offer a placeholder attribute 'name' on an empty prefix (statement silent: the library's choice is encoded)", "dynamic is expected only where the extension is on and the body has block types"},
 		BiteCounters: []string{"comparisons", "acceptance_checks", "nontrivial"},
 	})
+}
+
+
+// c07Population: bodies whose declarable population is 0, 1, 99, 100, 101 and 250 (attributes, block types,
+// both, with count/for_each): whatever the limit lets through is sorted by name and free of duplicates, and
+// below the limit it is the whole population.
+func c07Population(c *report.Collector) {
+	l := report.NewLocal()
+	defer c.Merge(l)
+	for _, sc := range popScenarios() {
+		switch sc.name {
+		case "schema-attributes", "schema-attributes-prefix", "block-types", "attributes+blocks", "attributes+count+for_each":
+		default:
+			continue
+		}
+		for _, n := range []int{0, 1, 2, 99, 100, 101, 250} {
+			if n < 2 && strings.Contains(sc.name, "+") {
+				continue
+			}
+			n, sc := n, sc
+			text := sc.text(n)
+			sp := &world.Spec{SchemaID: "P:" + sc.name, HookItems: -1, Paths: []world.PathSpec{{Path: "/p0", Schema: func() *schema.BodySchema { return sc.schema(n) }, Files: []world.FileSpec{{Name: "main.tf", Text: text}}}}}
+			w := world.Build(sp)
+			for _, kind := range []run.Kind{run.Completion, run.CompletionPrefill} {
+				q := run.Query{Kind: kind, File: "main.tf", Pos: run.PosAt([]byte(text), sc.cursor(text))}
+				r := run.Call(w, q)
+				l.Count("calls", 1)
+				l.Count("comparisons", 1)
+				cands, ok := r.Val.(lang.Candidates)
+				if !ok || r.Panic != nil {
+					continue
+				}
+				add := func(clause, detail string) {
+					c.Add(&report.Violation{Clause: clause, Site: "population:" + sc.name, Check: "population", SchemaID: sp.SchemaID, Files: []report.FileSpec{{Path: "/p0", Name: "main.tf", Text: text}}, Query: report.J(q),
+						Detail: fmt.Sprintf("body with a declarable population of %d (%s): %s", sc.total(n), sc.name, detail)})
+				}
+				var labels []string
+				for _, cd := range cands.List {
+					labels = append(labels, cd.Label)
+				}
+				for i := 1; i < len(labels); i++ {
+					if labels[i] < labels[i-1] {
+						add("candidates:not-sorted", fmt.Sprintf("%d candidates, %q listed before %q (first five: %v)", len(labels), labels[i-1], labels[i], labels[:min(5, len(labels))]))
+						break
+					}
+					if labels[i] == labels[i-1] {
+						add("candidates:duplicate", "twice: "+labels[i])
+						break
+					}
+				}
+				if sc.total(n) <= 100 && len(labels) != sc.total(n) {
+					add("candidates:missing", fmt.Sprintf("%d candidates for a population of %d below the limit", len(labels), sc.total(n)))
+				}
+				if len(labels) > 0 {
+					l.Count("nontrivial", 1)
+				}
+			}
+		}
+	}
 }
